@@ -107,15 +107,15 @@ func TestVerifC28Actor(t *testing.T) {
 					msgs := make([]any, n)
 					for j := range reqs {
 						delay := lr.intn(1500)
-						if lr.intn(4) == 0 {
-							delay = 12000 + lr.intn(8000) // beyond the 8ms timeout
+						if lr.intn(8) == 0 {
+							delay = 70000 + lr.intn(30000) // beyond the 50ms timeout
 						}
 						reqs[j] = fmt.Sprintf("e%d.c%d.%d.%d", r, k, i, j)
 						msgs[j] = &testpb.Reply{Content: fmt.Sprintf("%s|%d", reqs[j], delay)}
 					}
 					call := c28E2ECall{Round: r, MaxIdle: maxIdle, T: k, Batch: batch, Reqs: reqs}
 					if batch {
-						resps, err := cl.RemoteBatchAsk(ctx, from, to, msgs, 8*time.Millisecond)
+						resps, err := cl.RemoteBatchAsk(ctx, from, to, msgs, 50*time.Millisecond)
 						if err != nil {
 							call.Err = err.Error()
 						} else {
@@ -128,7 +128,7 @@ func TestVerifC28Actor(t *testing.T) {
 							}
 						}
 					} else {
-						resp, err := cl.RemoteAsk(ctx, from, to, msgs[0], 8*time.Millisecond)
+						resp, err := cl.RemoteAsk(ctx, from, to, msgs[0], 50*time.Millisecond)
 						if err != nil {
 							call.Err = err.Error()
 						} else if rr, ok := resp.(*testpb.Reply); ok {
